@@ -828,3 +828,54 @@ pub fn conflict_chain(r: &mut Rng) -> (Universe, Prob) {
     let reqs = if r.chance(1, 2) { vec![Req::Single(ra), Req::Single(rb)] } else { vec![Req::Single(rb), Req::Single(ra)] };
     (u, Prob { reqs, cons: vec![], soft: vec![] })
 }
+
+/// `wide-union`: a requirement that is a union of 31..48 version sets over as many packages
+/// (general-purpose join combinators change strategy above ~30 futures), next to a small random
+/// rest. Members are fetched concurrently; with hints their candidates' dependencies as well.
+pub fn wide_union(r: &mut Rng) -> (Universe, Prob) {
+    let mut u = Universe::default();
+    let m = if crate::report::small() { 3 + r.below(3) } else { 31 + r.below(18) } as usize;
+    let mut members = vec![];
+    for i in 0..m {
+        let name = format!("m{i}");
+        let nver = 1 + r.below(2) as u32;
+        for v in (1..=nver).rev() {
+            let s = u.solv(&name, v);
+            if r.chance(1, 4) {
+                u.solv("leaf", 1);
+                let lv = u.vs("leaf", 1, 2);
+                u.add_req(s, Req::Single(lv));
+            }
+        }
+        if r.chance(1, 6) {
+            // a member without candidates
+            members.push(u.vs(&name, 7, 8));
+        } else {
+            members.push(u.vs(&name, 1, 3));
+        }
+    }
+    let un = u.union(members);
+    let top = u.solv("top", 1);
+    let at_root = r.chance(1, 2);
+    if !at_root {
+        u.add_req(top, Req::Union(un));
+    }
+    let topv = u.vs("top", 1, 2);
+    u.finalize();
+    if r.chance(1, 2) {
+        for p in &mut u.pkgs {
+            p.hint = if r.chance(2, 3) { Hint::All } else { Hint::None };
+        }
+    }
+    u.union_iter = r.below(2) as u8;
+    let mut reqs = vec![];
+    if at_root {
+        reqs.push(Req::Union(un));
+        if r.chance(1, 2) {
+            reqs.push(Req::Single(topv));
+        }
+    } else {
+        reqs.push(Req::Single(topv));
+    }
+    (u, Prob { reqs, cons: vec![], soft: vec![] })
+}
